@@ -107,7 +107,7 @@ def _run_fuzz(prop, subname, seed_val, runs):
             for fn in sorted(os.listdir(committed)):
                 shutil.copy(os.path.join(committed, fn), work)
         p = subprocess.run([sys.executable, '-W', 'ignore', '-m', 'pv.fuzz', prop, subname, out, '--runs', str(runs), '--seed', str(seed_val),
-                            '--corpus', work], env=env, cwd=HERE, stdout=subprocess.DEVNULL, stderr=subprocess.PIPE, text=True)
+                            '--corpus', work, '--max-seconds', os.environ.get('PV_FUZZ_MAX_S', '420')], env=env, cwd=HERE, stdout=subprocess.DEVNULL, stderr=subprocess.PIPE, text=True)
         if not os.path.exists(out):
             raise RuntimeError('pv.fuzz left no result (exit %s): %s' % (p.returncode, (p.stderr or '')[-1500:]))
         r = json.load(open(out))
